@@ -276,6 +276,16 @@ Theorem c13_adaptive_stats_independent :
 Proof. intros F c d atasks s1 s2 leafname. exact (adaptive_stats_independent c d atasks s1 s2 leafname). Qed.
 Print Assumptions c13_adaptive_stats_independent.
 
+(* ... and the rendered "modules" stats fields of print_json after adaptive walks *)
+Theorem c13_adaptive_modules_json_determined :
+  forall (F : Type) (c : C12.Model.config) (d : F) (atasks : list (@atask F)) (sched : list C12.Model.task) (mods : list C12.Model.key),
+  C13.Sched.leaf_injective (fixed c atasks) ->
+  aall_done (length atasks) (arun c d atasks sched) = true ->
+  map (fun k => C13.Sched.module_fields (C12.Model.stats (ash (arun c d atasks sched)) (C12.Model.leaf c k))) mods =
+    C13.Sched.modules_spec (fixed c atasks) mods.
+Proof. intros F c d atasks sched mods. exact (adaptive_render_modules c d atasks sched mods). Qed.
+Print Assumptions c13_adaptive_modules_json_determined.
+
 (* ---- round 5: what a future does after its walk_stack, on state shared by all the futures (C13/Budget.v) *)
 (* if the post-walk steps of different futures commute, every completion order of the n walks leaves the same thread
    list and the same shared state *)
@@ -438,9 +448,13 @@ Proof. reflexivity. Qed.
 Print Assumptions c13_walk_future_captures_modelled.
 
 (* the statements of the future in order; exactly one of them awaits (walk_stack), none after it touches a cell *)
+Definition ends_with (suffix s : string) : bool :=
+  String.eqb (substring (String.length s - String.length suffix) (String.length suffix) s) suffix.
 Theorem c13_walk_future_steps_modelled :
   RM.Gen.C13Sites.walk_future_steps = map fst modelled_walk_future_steps /\
   RM.Gen.C13Sites.walk_future_interior_mutations = [] /\
+  (* exactly one statement of the generated list awaits, it is the walk_stack call, and nothing that awaits follows it *)
+  map (fun t => substring 0 11 (snd t)) (filter (fun t => ends_with "|awaits" (snd t)) RM.Gen.C13Sites.walk_future_steps) = ["walk_stack("] /\
   map snd (filter (fun e => match snd e with SymbolizerC12 => true | _ => false end) modelled_walk_future_steps) = [SymbolizerC12] /\
   forallb (fun e => match snd e with OwnSlotOnly | ReporterOnly | SymbolizerC12 => true | _ => false end) modelled_walk_future_steps = true.
 Proof. repeat split. Qed.
